@@ -456,8 +456,19 @@ type triageEnt struct {
 
 var tri = &triageAgg{m: map[string]*triageEnt{}}
 
+var triDump = func() *os.File {
+	if p := os.Getenv("VERIF_TRIAGE_DUMP"); p != "" {
+		f, _ := os.Create(p)
+		return f
+	}
+	return nil
+}()
+
 func (t *triageAgg) add(class, example string) {
 	t.mu.Lock()
+	if triDump != nil {
+		fmt.Fprintf(triDump, "%s\t%s\n", class, example)
+	}
 	e := t.m[class]
 	if e == nil {
 		e = &triageEnt{first: example}
